@@ -142,7 +142,11 @@ Doc0 == [k |-> "doc", Title |-> <<116>>, Tags |-> <<S!GStr(<<97>>), S!GStr(U_smi
          SIn |-> <<In2>>, AIn |-> <<In1, In2>>, Grid |-> <<<<S!GInt("int8", I(1))>>, <<S!GInt("int8", I(2)), S!GInt("int8", I(3))>>>>]
 PFields == {[fam |-> "pfield", where |-> w, sel |-> sel, d |-> Doc0] : w \in {"ptr", "inslice", "inmap"}, sel \in {"In", "PIn", "Arr", "SIn0", "AIn0"}}
 
-AllCases == Params \cup Arities \cup Rets \cup Funcs \cup Backs \cup ElemWsOK \cup PFields
+(* struct fields with every form of json tag, by Go name, by json name and by near misses (Bridge!TagAccess) *)
+TagNames == {<<80, 108, 97, 105, 110>>, <<78, 97, 109, 101, 100>>, <<79, 109, 105, 116>>, <<83, 116, 114>>, <<75, 101, 101, 112, 78, 97, 109, 101>>, <<68, 97, 115, 104>>, <<68, 97, 115, 104, 67, 111, 109, 109, 97>>, <<110>>, <<99, 111, 117, 110, 116>>, <<115>>, <<45>>, <<99, 111, 117, 110, 116, 44, 111, 109, 105, 116, 101, 109, 112, 116, 121>>, <<>>, <<44, 111, 109, 105, 116, 101, 109, 112, 116, 121>>, <<45, 44>>, <<112, 108, 97, 105, 110>>, <<111, 109, 105, 116>>, <<78>>, <<67, 111, 117, 110, 116>>, <<115, 44, 115, 116, 114, 105, 110, 103>>, <<115, 116, 114, 105, 110, 103>>, <<111, 109, 105, 116, 101, 109, 112, 116, 121>>}
+TagFields == {[fam |-> "tagfield", mode |-> m, name |-> n] : m \in {"read", "write", "param"}, n \in TagNames}
+
+AllCases == Params \cup Arities \cup Rets \cup Funcs \cup Backs \cup ElemWsOK \cup PFields \cup TagFields
 
 Js(c) == CASE c.fam \in {"param", "elemw"} -> JsParts(c.v)
            [] c.fam = "arity" -> JsItems(c.args, 1)
@@ -159,6 +163,7 @@ ExpectS(c) ==
                            ELSE S!FuncParamCall(c.body)
       [] c.fam = "back" -> S!BridgedToParam(c.isptr, c.src, c.ty)
       [] c.fam = "elemw" -> (LET r == S!ElemWriteOutcome(c.v, c.k, S!GInt(c.k, I(1))) IN [thr |-> r.thr, elem |-> r.elem, js |-> S!ElemJS(r.elem)])
+      [] c.fam = "tagfield" -> S!TagAccess(c.mode, c.name)
       [] c.fam = "pfield" -> (LET r == S!DocPtrCall(c.d, c.sel) IN [thr |-> r.thr, same |-> r.same, js |-> S!PlacedJS(c.where, r.d), go |-> r.d])
 ExpectL(c) ==
     CASE c.fam = "param" -> L!ConvertParam(c.v, c.ty)
@@ -167,6 +172,7 @@ ExpectL(c) ==
       [] c.fam = "func" -> IF c.body.b = "notfn" THEN L!ConvertParam(c.body.v, TK("int")) ELSE L!FuncParamCall(c.body)
       [] c.fam = "back" -> L!BridgedToParam(c.isptr, c.src, c.ty)
       [] c.fam = "elemw" -> (LET r == L!ElemWriteOutcome(c.v, c.k, S!GInt(c.k, I(1))) IN [thr |-> r.thr, elem |-> r.elem, js |-> S!ElemJS(r.elem)])
+      [] c.fam = "tagfield" -> L!TagAccess(c.mode, c.name)
       [] c.fam = "pfield" -> (LET r == L!DocPtrCall(c.d, c.sel) IN [thr |-> r.thr, same |-> r.same, js |-> S!PlacedJS(c.where, r.d), go |-> r.d])
 FixFunc(c, r) == IF c.fam = "func" /\ c.body.b = "notfn" THEN [thr |-> "TypeError"] ELSE r
 
